@@ -119,13 +119,23 @@ class ProcResult:
         return res
 
 
+def _child_limits():
+    # the sanitizer build has very large interpreter frames: give the tree-walking evaluator a deep stack so that
+    # bounded recursion in generated programs is not mistaken for a crash
+    import resource
+    try:
+        resource.setrlimit(resource.RLIMIT_STACK, (1 << 30, resource.RLIM_INFINITY))
+    except (ValueError, OSError):
+        pass
+
+
 def run_proc(argv, cwd=None, env=None, timeout=CASE_TIMEOUT, stdin=None):
     e = dict(ENV_BASE)
     if env:
         e.update(env)
     try:
         p = subprocess.run(argv, cwd=cwd, env=e, input=stdin, stdout=subprocess.PIPE, stderr=subprocess.PIPE,
-                           timeout=timeout)
+                           timeout=timeout, preexec_fn=_child_limits)
         return ProcResult(p.returncode, p.stdout.decode("latin-1"), p.stderr.decode("latin-1"))
     except subprocess.TimeoutExpired as ex:
         return ProcResult(None, (ex.stdout or b"").decode("latin-1"), (ex.stderr or b"").decode("latin-1"), True)
@@ -231,9 +241,15 @@ def run_workers(fn, seed, nworkers=None, **kwargs):
     if n == 1:
         results = [_worker_entry(jobs[0])]
     else:
+        from concurrent.futures import ProcessPoolExecutor
+        from concurrent.futures.process import BrokenProcessPool
         ctx = mp.get_context("fork")
-        with ctx.Pool(n) as pool:
-            results = pool.map(_worker_entry, jobs, chunksize=1)
+        try:
+            with ProcessPoolExecutor(max_workers=n, mp_context=ctx) as ex:
+                results = list(ex.map(_worker_entry, jobs))
+        except BrokenProcessPool as e:
+            sys.stderr.write(f"WORKER DIED (broken machinery, not a violation): {e}\n")
+            raise SystemExit(2)
     errs = [r["worker_error"] for r in results if "worker_error" in r]
     if errs:
         sys.stderr.write("WORKER ERROR (broken machinery, not a violation):\n" + errs[0] + "\n")
